@@ -37,10 +37,12 @@ func (e *env) multisetValidator(what string, want []int, exact bool) func(p *por
 				return fmt.Sprintf("%s: delivered %v (sorted) contains %d x %d, the sequential stage delivers %d x (invented or duplicated); expected multiset %v", what, sorted(p.delivered), n, v, wm[v], sorted(want))
 			}
 		}
-		if final {
+		if p.closed {
 			if n := e.inflight(); n > 0 {
-				return fmt.Sprintf("%s: output observed closed while %d user-function calls are still in flight", what, n)
+				return fmt.Sprintf("%s: output observed closed while %d user-function calls are still in flight (cancelled: %v)", what, n, e.cancelled)
 			}
+		}
+		if final {
 			if exact && len(p.delivered) != len(want) {
 				return fmt.Sprintf("%s: closed after delivering %v (sorted), the sequential stage delivers %v (element lost)", what, sorted(p.delivered), sorted(want))
 			}
